@@ -19,7 +19,8 @@ Driver handler for streams `c12` (key-management histories) and `c12kms` (the sa
           | r:<ow><kg>:<cn>:<serial override, 0 = none>:<now>:<gen>:<deadline>
           | w:<ow><kg>:<ca><keys>
           | x:settle | x:disable:<cryptoKey id>:<version> | x:expire
-      (gen, deadline: the Cloud KMS environment of the command; wr / ws: whether the object named after the
+      (gen, deadline: the Cloud KMS environment of the command — gen = cE / cD: CreateCryptoKeyVersion creates
+       versions directly ENABLED / DISABLED —; wr / ws: whether the object named after the
        root / signing certificate of a FAILED bootstrap changed — they select the order in which gcsca.Finalize
        visited its Go map of certificates when the two orders differ)
     → ok=… pr=… ps=… root=… ents=… live=<names that can sign> vers=<id>:<n><E|P<gen>|D|S|X>,…;<id>:…
@@ -87,17 +88,26 @@ def kname (ring : String) (n : KName) : String :=
   if n == noName then "-" else GceTcb.CA.verName (ring ++ "/cryptoKeys/" ++ n.base) n.idx
 
 open GceTcb.KeyHistory.KmsH in
+/-- the `<gen>:<deadline>` slots of a command: a countdown, or `cE` / `cD` = CreateCryptoKeyVersion creates
+    versions ENABLED / DISABLED (and its response says so) -/
+def parseEnv (gen dl : String) : Env :=
+  match gen with
+  | "cE" => { gen := 0, deadline := dl == "1", created := some .enabled }
+  | "cD" => { gen := 0, deadline := dl == "1", created := some .disabled }
+  | _ => { gen := gen.toNat?.getD 0, deadline := dl == "1" }
+
+open GceTcb.KeyHistory.KmsH in
 def parseKCmd (s : String) : Option (KCmd × Bool × Bool) :=
   match s.splitOn ":" with
   | ["b", fl, rcn, scn, rs, ss, now, gen, dl, w] =>
     match w.toList with
     | [wr, ws] =>
       some (.bootstrap (parseFlags fl) ⟨rcn, scn, rs.toNat?.getD 0, ss.toNat?.getD 0, now.toNat?.getD 0⟩
-        ⟨gen.toNat?.getD 0, dl == "1"⟩ false, wr == '1', ws == '1')
+        (parseEnv gen dl) false, wr == '1', ws == '1')
     | _ => none
   | ["r", fl, cn, ser, now, gen, dl] =>
     let n := ser.toNat?.getD 0
-    some (.rotate (parseFlags fl) ⟨cn, if n = 0 then none else some n, now.toNat?.getD 0⟩ ⟨gen.toNat?.getD 0, dl == "1"⟩,
+    some (.rotate (parseFlags fl) ⟨cn, if n = 0 then none else some n, now.toNat?.getD 0⟩ (parseEnv gen dl),
       false, false)
   | ["w", fl, ck] =>
     match ck.toList with
